@@ -1,41 +1,30 @@
 """Registry: which translators, Lean modules, drivers and harness components serve which property.
 
-component entry:
-  name      component name (first field of every case line)
-  bin       harness binary (harness/src/bin/<bin>.rs)
-  drv       Lean driver executable (lean_exe in lean/lakefile.toml)
-  n         generated case count per tier (the binary may add exhaustive enumerations on top)
-  trivial   AGREE classes that do not count as non-trivial for the evidence
-Translators are names of functions in bin/translators (module `translate.<name>`, function `run(repo, out_dir)`).
+One JSON fragment per property in bin/registry.d/<Cnn>.json:
+  title, technique, level_text, level_note   texts for MANIFEST.json
+  lean         Lean modules holding the property theorems (S3V.Props.Cnn [, more])
+  translators  names of tie-A translators (module translate/<name>.py, function run(repo, verif_root))
+  components   list of {name, bin, drv, n: {quick, thorough}, trivial: [AGREE classes not counted as non-trivial]}
+  trusted_base, assumptions   strings copied into the evidence file
 """
+import glob
+import json
+import os
 
 ALLOWED_AXIOMS = {"propext", "Classical.choice", "Quot.sound"}
 
-PROPS = {
-    "C20": {
-        "title": "wildcard matching and policy documents",
-        "technique": "Lean 4 theorem (loop invariant + lexicographic termination) about a literal model of match_pattern; correspondence check against PatternSet",
-        "level_text": "matchPattern p s = true <-> Matches p s proved in Lean for all patterns and inputs over any alphabet (no length bound), "
-                      "plus set/empty-pattern theorems; the model is tied to s3s-policy by an exhaustive (short strings over {a,b,*,?}) and random "
-                      "Unicode differential run through the public PatternSet API, each answer also judged by an executable reference proved equal to the spec. "
-                      "Policy JSON documents: not yet modelled (serde layer trusted).",
-        "level_note": "Lean kernel + propext/Quot.sound/Classical.choice; the code consumes UTF-8 sequences where the model consumes symbols (valid UTF-8 is a Rust str invariant); "
-                      "tie is differential testing; serde_json/indexmap trusted",
-        "lean": ["S3V.Props.C20"],
-        "translators": [],
-        "components": [
-            {"name": "pattern", "bin": "h_pattern", "drv": "drv-pattern",
-             "n": {"quick": 20000, "thorough": 400000}, "trivial": ["refused"]},
-        ],
-    },
-}
+_HERE = os.path.dirname(os.path.abspath(__file__))
+PROPS = {}
+for _p in sorted(glob.glob(os.path.join(_HERE, "registry.d", "C*.json"))):
+    PROPS[os.path.basename(_p)[:-5]] = json.load(open(_p))
 
-# properties not claimed (each with a reason); kept current by hand
+ALL_IDS = ["C%02d" % i for i in range(1, 21)]
+_REASONS_PATH = os.path.join(_HERE, "registry.d", "not_applicable.json")
+_REASONS = json.load(open(_REASONS_PATH)) if os.path.exists(_REASONS_PATH) else {}
 NOT_APPLICABLE = [
-    {"property_id": p, "reason": "check not built yet in this round (planned, see DESIGN.md §6); will be claimed when its model, theorems and correspondence exist"}
-    for p in ["C01", "C02", "C03", "C04", "C05", "C06", "C07", "C08", "C09", "C10", "C11", "C12", "C13", "C14", "C15", "C16", "C17", "C18", "C19"]
+    {"property_id": p, "reason": _REASONS.get(p, "check not built yet (planned, DESIGN.md section 6); it will be claimed when its model, theorems and correspondence exist")}
+    for p in ALL_IDS if p not in PROPS
 ]
-NOT_APPLICABLE = [x for x in NOT_APPLICABLE if x["property_id"] not in PROPS]
 
 # guarded hook commits in /repo (MANIFEST.hooks.source_commits)
-HOOK_COMMITS = []
+HOOK_COMMITS = ["0af76b7"]
